@@ -733,6 +733,7 @@ class STensor:
         return self if self.is_contiguous() else self.clone()
 
     def detach(self) -> "STensor":
+        GRAPH_EVENTS.append(("detach", id(self.store)))  # the result shares the storage but not the autograd history
         return self._view(list(self.idx), self.shape)
 
     def to(self, *args, **kwargs) -> "STensor":
@@ -1344,6 +1345,7 @@ def _truth(x) -> bool:
 
 
 _FLOAT_WIDTH = {"float16": 16, "bfloat16": 16, "float32": 32, "float64": 64}
+GRAPH_EVENTS: List[Tuple[str, int]] = []  # (blocker, id of the operand's storage): detach() / .data taken of a tensor while an obligation ran
 PRECISION_EVENTS: List[Tuple[str, str]] = []  # (narrow, wide): a tensor computed in a narrower float type entered wider arithmetic
 
 
